@@ -83,6 +83,12 @@ Definition ok_chain_hist (c : flavour * bool * list mw * option (list mw) * nat 
   list_eqb event_eqb (nth_request fw ftl ms strict warm) obs.
 Definition mismatches_chain_hist := mismatches ok_chain_hist.
 
+(** C14: a server mounted from an options value that carries the middlewares next to an error handler of the caller's. *)
+Definition ok_chain_opts (c : flavour * bool * list mw * bool * option (list mw) * list event) : bool :=
+  let '(fw, ftl, ms, errh, strict, obs) := c in
+  list_eqb event_eqb (mounted_trace mount fw ftl strict {| o_mws := ms; o_error_handler := errh; o_base_url := false |}) obs.
+Definition mismatches_chain_opts := mismatches ok_chain_opts.
+
 (** gin, middlewares that pass, abort or write-and-pass, no strict layer: the observed trace *)
 Definition ok_gin_writes (c : list gmw * list event) : bool :=
   list_eqb event_eqb (gin_loop template_stop (combine (seq 0 (List.length (fst c))) (fst c)) false [EHandler]) (snd c).
@@ -343,6 +349,12 @@ Definition ok_merge2 (c : leaf * leaf * option (option string * string * list st
   | _, _ => false
   end.
 Definition mismatches_merge2 := mismatches ok_merge2.
+
+(** the legacy merge: members by what they say about additional properties (None / value type), observed = rejected
+    (None), no additional properties (Some None), or the value type of the merged type's AdditionalProperties map *)
+Definition ok_v1_addl (c : list (option string) * option (option string)) : bool :=
+  let '(ms, obs) := c in opt_eqb (opt_eqb String.eqb) (v1_addl ms) obs.
+Definition mismatches_v1_addl := mismatches ok_v1_addl.
 
 (** C20: observed = the generate section (and skip flags) the tool resolved for a list of
     targets, read from --output-config (None = rejected). *)
